@@ -130,8 +130,22 @@ func nativeReplay(l *Loaded, pkgPath string, tapes []TapeSpec, scratch string) (
 	if err := os.WriteFile(listPath, []byte(lb.String()), 0o644); err != nil {
 		return nil, "", err
 	}
-	cmd := exec.Command("go", "test", "-mod=mod", "-vet=off", "-count=1", "-v", "-overlay", ovPath, "-run", "^TestZZVerifReplay$", "-timeout", "600s", pkgPath)
-	cmd.Dir = l.ModuleDir
+	// Build the test binary once per package (the package directory may exist
+	// only in the overlay, so "go test" cannot chdir into it) and run it from scratch.
+	bin := filepath.Join(scratch, "replay_"+l.Module+"_"+dirTag+".test")
+	if _, err := os.Stat(bin); err != nil {
+		build := exec.Command("go", "test", "-mod=mod", "-vet=off", "-c", "-overlay", ovPath, "-o", bin, pkgPath)
+		build.Dir = l.ModuleDir
+		build.Env = goEnv()
+		var bout bytes.Buffer
+		build.Stdout = &bout
+		build.Stderr = &bout
+		if err := build.Run(); err != nil {
+			return nil, bout.String(), fmt.Errorf("go test -c failed: %v\n%s", err, trunc(bout.String(), 4000))
+		}
+	}
+	cmd := exec.Command(bin, "-test.run", "^TestZZVerifReplay$", "-test.v", "-test.timeout", "900s")
+	cmd.Dir = scratch
 	cmd.Env = append(goEnv(), "VERIF_TAPELIST="+listPath)
 	var out bytes.Buffer
 	cmd.Stdout = &out
